@@ -272,6 +272,11 @@ class Vector():
 		return total
 
 	def fingerprint(self) -> int:
+		kind = self._dtype.kind if self._dtype is not None else None
+		if self._fp is not None and isinstance(kind, type) and issubclass(kind, Vector):
+			# elements that are vectors are written through their own handles and cannot
+			# notify this one: recombine their (cached) fingerprints on every call
+			self._fp = None
 		if self._fp is None:
 			if self._fp_powers is None or len(self._fp_powers) != len(self._underlying):
 				self._ensure_fp_powers()
